@@ -6,6 +6,7 @@ import (
 	"net/http"
 	"net/http/httputil"
 	"net/url"
+	"slices"
 	"strings"
 	"time"
 
@@ -173,6 +174,12 @@ func (prx *linkedIPProxy) ServeHTTP(w http.ResponseWriter, r *http.Request) {
 func shouldProxy(method, urlPath string) (ok bool) {
 	parts := strings.SplitN(strings.TrimPrefix(urlPath, "/"), "/", 5)
 	if l := len(parts); l < 3 || l > 4 {
+		return false
+	}
+
+	// Do not proxy paths that leave the API prefix once the dot segments are
+	// normalized.
+	if slices.Contains(parts, ".") || slices.Contains(parts, "..") {
 		return false
 	}
 
